@@ -162,16 +162,21 @@ CHECKS['C02'] = dict(
     ref='DESIGN.md section 5, C02 and section 12')
 
 CHECKS['C01'] = dict(
-    category='exploration',
-    text='Interim level: search over the input and configuration space on the implementation - every bundled renderer '
-         'configuration (options, max_line_length, input forms) on random documents, spec mutations, a malformed Unicode '
-         'stream, exhaustive small-alphabet strings and line sequences, and nesting up to depth 100 - flagging any '
-         'exception other than the two documented refusals and any run over the wall-clock budget. The Lean totality '
-         'theorems (fuel sufficiency of the dispatch loop and of process_emphasis, render_map coverage) are attached to '
-         'the parser model as it grows; wall-clock termination itself can only be measured.',
-    note='Trusted: SIGALRM budget; Pygments exercised, not modelled. Interim level, see DESIGN.md C01.',
-    technique='exploration of inputs x configurations on the implementation (Lean totality theorems pending the parser model)',
-    ref='DESIGN.md section 5, C01')
+    text='Lean 4 theorems over the parser model, in which every Python raise site of block_tokenizer.py / block_token.py / '
+         'core_tokens.py is an explicit error value and every non-structural loop takes fuel: for EVERY list of complete '
+         'lines (what Document(str) produces - proved), every token-type list and every amount of gas the block phase '
+         'returns no error except running out of gas (none of the IndexError/TypeError/StopIteration/UnboundLocalError '
+         'sites is reachable); with gas above an explicit closed-form bound it returns a result, and more gas never '
+         'changes the result (termination of the dispatch loop, of every reader loop and of the recursion into '
+         'containers). Document-level and inline-level totality theorems are listed in the evidence as they are '
+         'added. The model is tied to the code by scanner-level, block-buffer-level and whole-document correspondence '
+         '(result or exception kind) on random, mutated, malformed, truncated and deeply nested inputs. The property '
+         'also quantifies over renderers that are not modelled (Markdown, Jira, XWiki, Pygments) and over wall-clock '
+         'time: that part is explored on the implementation under all configurations.',
+    note='Trusted: Lean kernel (axioms propext/Classical.choice/Quot.sound at most); correspondence harness; SIGALRM '
+         'budget; Pygments exercised, not modelled; recursion limit represented by the gas bound.',
+    technique='Lean 4 proof (simultaneous induction over the gas of the mutually recursive tokenizer; weighted-length measure for termination) + correspondence + exploration of configurations on the implementation',
+    ref='DESIGN.md section 5, C01 and section 12')
 
 CHECKS['C06'] = dict(
     category='exploration',
@@ -186,16 +191,22 @@ CHECKS['C06'] = dict(
     ref='DESIGN.md section 5, C06')
 
 CHECKS['C04'] = dict(
-    category='exploration',
-    text='Interim level: metamorphic exploration on the implementation - the AST of Document(text) against the AST of the '
-         'same text with a block-quote marker before every line ("> " and ">") and with a list marker of width W before '
-         'its first line and W spaces before every other non-blank line (+ - * N. N) with padding 1-4), line numbers set '
-         'aside, link definitions compared - over spec examples, mutations, splices, random documents and strings. Two '
-         'recorded findings (setext heading inside a block quote; lines beginning with non-ASCII Unicode whitespace). The '
-         'Lean wrap lemmas over the block-parser model are the planned upgrade.',
-    note='Trusted: exporter as AST observation. Interim level, see DESIGN.md C04.',
-    technique='metamorphic exploration of the wrap laws on the implementation (Lean wrap lemmas pending the block-parser model)',
-    ref='DESIGN.md section 5, C04')
+    text='Lean 4 theorems over the block-parser model, for every buffer, start line, parser state and gas: '
+         'tokenize_block on lines each behind "> " or ">" equals one Quote around tokenize_block on the unmarked lines '
+         'run with Paragraph.parse_setext off (errors included, definitions unchanged), hence exactly B whenever the '
+         'parse does not depend on that switch - the recorded finding setext-in-quote is precisely the failure of that '
+         'hypothesis and is exhibited on the model; lines indented as one list item (markers - + * and 1-9 digits with '
+         '. or ), padding 1-4) parse to one single-item List whose item content is the parse of the original lines with '
+         'the same definitions. Proved for every token-type list in which only types that cannot start on the marked '
+         'line precede Quote/List, instantiated for the HTML and Markdown renderer lists. Tied to the code by scanner and '
+         'block-buffer correspondence on the original and embedded texts; the metamorphic law itself is also explored on '
+         'the implementation (AST of Document(text) vs Document(embed(text))).',
+    note='Trusted: Lean kernel (axioms propext/Classical.choice/Quot.sound at most); correspondence harness; exporter. '
+         'Hypotheses of the list half (continuation lines start with a non-whitespace character after the indentation, '
+         'blank lines are exactly "\\n", marker indentation 0) and the flag-independence hypothesis of the quote half are '
+         'stated in the theorems and in the evidence.',
+    technique='Lean 4 proof (reader-by-reader simulation lemmas, equation between the two tokenizer runs) + block-buffer correspondence + metamorphic exploration',
+    ref='DESIGN.md section 5, C04 and section 12')
 
 CHECKS['C05'] = dict(
     category='exploration',
